@@ -112,6 +112,11 @@ func (t *Timer) Scheduled() bool {
 }
 
 func (t *Timer) Cancel() error {
+	if t.state == stateClosed {
+		// Nothing to cancel, and a closed timer must stay closed: its descriptor is gone and the number
+		// may already belong to another object.
+		return nil
+	}
 	err := t.it.Unset()
 	if err == nil {
 		t.cancelled = true
